@@ -350,7 +350,7 @@ def _run_conf(d, coll, chunk, prefix, crash_at=None):
     sc = [float(x) for x in coll["scores"]]
     old = (C.CONFIDENCE_CHUNK_SIZE, C.peps_from_scores)
     C.CONFIDENCE_CHUNK_SIZE = int(chunk)
-    C.peps_from_scores = lambda s, t, a="qvality": np.full(len(s), 0.5)
+    C.peps_from_scores = __import__("checks.conflib", fromlist=["x"]).real_pep_stub
     import pandas as pd
     orig_to_csv, orig_unlink, orig_osunlink = pd.DataFrame.to_csv, Path.unlink, os.unlink
     count = [0]
@@ -489,7 +489,7 @@ def real_dirty2(cfg, inp):
             dfs.append(df)
             scs.append([float(x) for x in coll["scores"]])
         old = C.peps_from_scores
-        C.peps_from_scores = lambda s, t, a="qvality": np.full(len(s), 0.5)
+        C.peps_from_scores = __import__("checks.conflib", fromlist=["x"]).real_pep_stub
         try:
             mokapot.assign_confidence(pss, max_workers=1, scores=[np.array(x, dtype=float) for x in scs], descs=[True, True], dest_dir=Path(out), prefixes=inp["prefixes"], decoys=True)
         except Exception as ex:
